@@ -68,6 +68,19 @@ type Item struct {
 	Base   int64 // v2: base offset; v0/v1 wrapper: absolute offset of the first inner message (relative offsets count from it)
 	Last   int64 // v2: last offset of the batch (base+lastOffsetDelta), may exceed the last retained record
 	Recs   []Rec // retained records (v2: any subset of [Base,Last]; plain v0/v1: exactly one; wrapper: >= 1)
+	// LogAppendTs != 0: the topic uses message.timestamp.type=LogAppendTime.  The broker has set the timestamp-type bit
+	// (attributes bit 3) and the batch's maxTimestamp (v2) / the wrapper's timestamp (v1) to the append time; the
+	// records' own timestamp fields are still the producer's.  The timestamp of every record of the batch IS the
+	// append time (Kafka protocol guide, record batch / message set: timestampType).
+	LogAppendTs int64
+}
+
+// stored is the record as the log defines it: under LogAppendTime its timestamp is the batch's append time.
+func (it Item) stored(r Rec) Rec {
+	if it.LogAppendTs != 0 {
+		r.TsMs = it.LogAppendTs
+	}
+	return r
 }
 
 func putVarint(b *bytes.Buffer, v int64) {
@@ -155,8 +168,13 @@ func encodeV2(it Item) (out []byte, plen int, sizes []int) {
 	if it.Codec != 0 {
 		pl = compressBytes(it.Codec, pl)
 	}
+	attrs := int16(it.Codec)
+	if it.LogAppendTs != 0 {
+		attrs |= 0x08
+		maxTs = it.LogAppendTs
+	}
 	var crcPart bytes.Buffer
-	be16(&crcPart, int16(it.Codec)) // attributes
+	be16(&crcPart, attrs) // attributes
 	be32(&crcPart, int32(it.Last-it.Base))
 	be64(&crcPart, firstTs)
 	be64(&crcPart, maxTs)
@@ -214,7 +232,7 @@ func (it Item) Encode() ([]byte, string) {
 		out, plen, sizes := encodeV2(it)
 		var rs []string
 		for i, r := range it.Recs {
-			rs = append(rs, fmt.Sprintf("%d~%d~%d", r.Offset-it.Base, r.Digest(2), sizes[i]))
+			rs = append(rs, fmt.Sprintf("%d~%d~%d", r.Offset-it.Base, it.stored(r).Digest(2), sizes[i]))
 		}
 		s := "-"
 		if len(rs) > 0 {
@@ -234,10 +252,15 @@ func (it Item) Encode() ([]byte, string) {
 				field = r.Offset - it.Base // v1: relative inner offsets (holes keep the original numbering)
 			}
 			inner.Write(encodeMsg(it.Format, field, 0, r.TsMs, r.Key, r.Value))
-			rs = append(rs, fmt.Sprintf("%d~%d", field, r.Digest(it.Format)))
+			rs = append(rs, fmt.Sprintf("%d~%d", field, it.stored(r).Digest(it.Format)))
 		}
 		last := it.Recs[len(it.Recs)-1]
-		out := encodeMsg(it.Format, last.Offset, int8(it.Codec), last.TsMs, nil, compressBytes(it.Codec, inner.Bytes()))
+		wattrs, wts := int8(it.Codec), last.TsMs
+		if it.LogAppendTs != 0 && it.Format == 1 {
+			wattrs |= 0x08
+			wts = it.LogAppendTs
+		}
+		out := encodeMsg(it.Format, last.Offset, wattrs, wts, nil, compressBytes(it.Codec, inner.Bytes()))
 		return out, fmt.Sprintf("w:%d:%d:%d:%d:%s", it.Format, last.Offset, it.Codec, len(out), strings.Join(rs, ","))
 	}
 }
